@@ -314,7 +314,8 @@ def check_identity(ctx, src, knobs=(), cfg=None):
         ctx.cover('identity-configurations', ','.join(sorted(cfg)))
         ctx.mon('identity-compared-under-options')
     try:
-        got = PageTemplate(src, **cfg)()
+        from vlib import routes
+        got = routes.make(PageTemplate, src, 6, ctx, **cfg)()
     except TemplateError as e:
         ctx.cover('rejected', type(e).__name__)
         ctx.case(key=None, nontrivial=False)
